@@ -842,4 +842,23 @@ def HRecv.feed : HRecv → List HPart → HRecv × List HRecvOut
     let (r2, os) := HRecv.feed r1 ps
     (r2, o :: os)
 
+/-! ### The two exchanges of the finder, end to end -/
+
+/-- The local chain as the finder reads it: ids `lm n` up to the best block. -/
+def localOf (best : Nat) (lm : Nat → Nat) (n : Nat) : Option Nat := if n ≤ best then some (lm n) else none
+
+/-- One hash-by-no exchange with a node whose main chain is `main`: the serving handler (NOT_FOUND where it has
+no block), `BlockHashByNoReceiver`, `hasSameHash`. -/
+def probeX (best : Nat) (lm : Nat → Nat) (main : Nat → Option Nat) (i : Nat) : Probe :=
+  probeOf (localOf best lm i)
+    (hbnRecv false (match main i with | some _ => .ok | none => .notFound) ((main i).getD 0))
+
+/-- The ancestor exchange: the finder's anchor list (ids of the local main chain at the anchor heights) handed
+to the serving node, its `findAncestor`, its handler (`answered`: its chain service replied in time), the
+requesting node's `AncestorReceiver` (in time). -/
+def lightExchange (answered : Bool) (best : Nat) (lm : Nat → Nat) (store main : Nat → Option Nat) :
+    Option (Option (Nat × Nat)) :=
+  let r := serveAncestor answered (findAncestor store main ((anchors best).map lm))
+  ancRecv false r.1 r.2.1 r.2.2
+
 end Aergo.Sync
